@@ -102,9 +102,17 @@ def run(ctx):
     f = ctx.fn(common.TOK % "field::MatchArm<'_>")
     if f:
         T = tpl.Templates(f)
-        txt = " ".join(T.render(T.root_streams()[-1])) if T.root_streams() else ""
-        single = re.search(r"=> \{ if ! ⟨proc_macro2::Ident⟩ \. 0 \{ ⟨proc_macro2::Ident⟩ = \( true , __errors \. handle \( .*? \) \) ; \} else \{ __errors \. push \( :: darling :: Error :: duplicate_field \(", txt)
-        multi = re.search(r"=> \{ let __len = ⟨proc_macro2::Ident⟩ \. len \( \) ; if let :: darling :: export :: Some \( __val \) = __errors \. handle \( .*? \) \{ ⟨proc_macro2::Ident⟩ \. push \( __val \) \} \}", txt)
+        toks_ = T.render(T.root_streams()[-1]) if T.root_streams() else []
+        txt = " ".join(toks_)
+        # every arm the generator can emit (a shared `#name => { #body }` wrapper around per-kind bodies
+        # and the original two full templates render to the same alternatives); the seen-flag test may
+        # be written in either orientation
+        variants_ = [" ".join(x) for x in tpl.expand_alts(toks_)]
+        S1 = r"=> \{ if ! ⟨proc_macro2::Ident⟩ \. 0 \{ ⟨proc_macro2::Ident⟩ = \( true , __errors \. handle \( .*? \) \) ; \} else \{ __errors \. push \( :: darling :: Error :: duplicate_field \("
+        S2 = r"=> \{ if ⟨proc_macro2::Ident⟩ \. 0 \{ __errors \. push \( :: darling :: Error :: duplicate_field \( .*? \} else \{ ⟨proc_macro2::Ident⟩ = \( true , __errors \. handle \("
+        M1 = r"=> \{ let __len = ⟨proc_macro2::Ident⟩ \. len \( \) ; if let :: darling :: export :: Some \( __val \) = __errors \. handle \( .*? \) \{ ⟨proc_macro2::Ident⟩ \. push \( __val \)(?: ;)? \} \}"
+        single = any(re.search(S1, x) or re.search(S2, x) for x in variants_)
+        multi = any(re.search(M1, x) for x in variants_)
         ctx.ob("C02.H.duplicate-vs-extract", f.key, "single-value arm", bool(single), "template: %s" % txt[:600])
         ctx.ob("C02.H.multiple-handle", f.key, "multiple arm", bool(multi), "template: %s" % txt[:600])
         ctx.ob("C02.H.arm-no-exit", f.key, "no early exit in match arm", not re.search(r"\breturn\b|\bbreak\b| \? ", txt), "template must not leave the item loop")
